@@ -397,6 +397,10 @@ impl C08 {
         let n2 = 1 + t.usize_below(6);
         let cut = t.raw();
         let state_kind = t.below(6);
+        // (drawn last so that older replays keep their meaning) position of a transaction that is
+        // still below the quorum when the first snapshot is persisted - the snapshot then holds
+        // open versions above its watermark - and gets its quorum count afterwards
+        let gap_at = t.usize_below(n1 + 1); // 0 = none
         let scratch = Scratch::new("c08");
         let dir = scratch.path().to_path_buf();
         let mut fail: Option<(String, String)> = None;
@@ -407,12 +411,15 @@ impl C08 {
             // phase 1: confirmed events, persisted
             let mut all = Vec::new();
             for i in 0..n1 {
-                all.push(mk(1 + i % 3, q));
+                all.push(mk(1 + i % 3, if gap_at == i + 1 && q > 0 { q - 1 } else { q }));
             }
-            if let Err(e) = write_history(&db, &all).await {
-                fail = Some(("setup".into(), e));
-                return;
-            }
+            let parts1 = match write_history(&db, &all).await {
+                Ok(p) => p,
+                Err(e) => {
+                    fail = Some(("setup".into(), e));
+                    return;
+                }
+            };
             let mut m = BucketConfirmationManager::new(dir.clone(), BUCKETS, rf, HashSet::from_iter(0..PARTITIONS));
             if let Err(e) = m.initialize(&db).await {
                 fail = Some(("initialize".into(), format!("{e}")));
@@ -436,6 +443,28 @@ impl C08 {
             };
             for e in &parts2[&0].events {
                 let _ = m.update_confirmation(0, e.seq + 1, e.count).await;
+            }
+            // the transaction left below the quorum now reaches it: first on disk (what
+            // ConfirmTransaction / the coordinator do), then reported to the manager
+            if gap_at > 0 {
+                let spec = &all[gap_at - 1];
+                let first_id = spec.events[0].0;
+                let offsets: Option<smallvec::SmallVec<[u64; 4]>> = match db.read_transaction(0, first_id).await {
+                    Ok(Some(sierradb::bucket::segment::CommittedEvents::Single(ev))) => Some(smallvec::smallvec![ev.offset]),
+                    Ok(Some(sierradb::bucket::segment::CommittedEvents::Transaction { events, commit })) => Some(events.iter().map(|e| e.offset).chain(std::iter::once(commit.offset)).collect()),
+                    _ => None,
+                };
+                let Some(offsets) = offsets else {
+                    fail = Some(("setup".into(), "transaction to confirm not found".into()));
+                    return;
+                };
+                if let Err(e) = db.set_confirmations(0, offsets, spec.tx_id, q).await {
+                    fail = Some(("setup".into(), format!("set_confirmations: {e}")));
+                    return;
+                }
+                for e in parts1[&0].events.iter().filter(|e| spec.events.iter().any(|(id, _, _)| *id == e.id)) {
+                    let _ = m.update_confirmation(0, e.seq + 1, q).await;
+                }
             }
             let w1 = m.get_watermark(0).map(|w| w.get()).unwrap_or(0);
             let _ = m.persist_bucket_state(0).await;
@@ -480,13 +509,16 @@ impl C08 {
                 return;
             }
             let w2 = m2.get_watermark(0).map(|w| w.get()).unwrap_or(0);
-            sample = json!({"kind": "persist-crash", "rf": rf, "state": desc, "watermark_before_second_persist": w0, "watermark_before_crash": w1, "watermark_after_restart": w2});
+            sample = json!({"kind": "persist-crash", "rf": rf, "state": desc, "transaction_below_quorum_at_first_snapshot": gap_at, "watermark_before_second_persist": w0, "watermark_before_crash": w1, "watermark_after_restart": w2});
             if w2 < w1 {
                 fail = Some(("restart/watermark-went-back".into(), format!("watermark was {w1} before the crash ({desc}) and is {w2} after re-initialisation from the on-disk counts")));
             }
             db.shutdown().await;
         });
         out.nontrivial = matches!(state_kind, 0 | 2 | 4);
+        if gap_at > 0 {
+            out.class("snapshot-with-open-versions");
+        }
         if let Some((sig, msg)) = fail {
             out.fail(format!("C08/{sig}"), msg);
         }
